@@ -102,10 +102,13 @@ class EASRadio:
 
         Re = R_earth.to(km).value
         B_angle = np.ones(altDec[mask].shape)
-        B_angle *= np.pi / 2.0 - np.arccos(
-            (lenDec[mask] ** 2.0 + (altDec[mask] + Re) ** 2.0 - Re**2.0)
-            / (2.0 * lenDec[mask] * (altDec[mask] + Re))
-        )
+        with np.errstate(divide="ignore", invalid="ignore"):
+            cos_zen = (lenDec[mask] ** 2.0 + (altDec[mask] + Re) ** 2.0 - Re**2.0) / (
+                2.0 * lenDec[mask] * (altDec[mask] + Re)
+            )
+        # a decay at the exit point (zero decay length) has the limit sin(beta)
+        cos_zen = np.where(lenDec[mask] > 0, cos_zen, np.sin(beta[mask]))
+        B_angle *= np.pi / 2.0 - np.arccos(np.clip(cos_zen, -1.0, 1.0))
         bounds = np.radians(30.0)
         B_angle += np.random.uniform(-1.0 * bounds, bounds, altDec[mask].shape)
         B_angle = np.abs(np.sin(B_angle))
